@@ -34,6 +34,13 @@ func NewBoardSummaryFromRaw(boardSummaryRaw *ptttype.BoardSummaryRaw) *BoardSumm
 	for idx, each := range boardSummaryRaw.BM {
 		bms[idx] = UUserID(types.CstrToString(each[:]))
 	}
+	// the title is withheld (nil) from a caller who may not see the board
+	var boardClass, boardType, realTitle []byte
+	if boardSummaryRaw.Title != nil {
+		boardClass = types.CstrToBytes(boardSummaryRaw.Title[:4])
+		boardType = types.CstrToBytes(boardSummaryRaw.Title[5:7])
+		realTitle = types.CstrToBytes(boardSummaryRaw.Title[7:])
+	}
 	boardSummary := &BoardSummary{
 		Gid:          boardSummaryRaw.Gid,
 		Bid:          boardSummaryRaw.Bid,
@@ -41,9 +48,9 @@ func NewBoardSummaryFromRaw(boardSummaryRaw *ptttype.BoardSummaryRaw) *BoardSumm
 		BrdAttr:      boardSummaryRaw.BrdAttr,
 		StatAttr:     boardSummaryRaw.StatAttr,
 		Brdname:      types.CstrToString(boardSummaryRaw.Brdname[:]),
-		BoardClass:   types.CstrToBytes(boardSummaryRaw.Title[:4]),
-		BoardType:    types.CstrToBytes(boardSummaryRaw.Title[5:7]),
-		RealTitle:    types.CstrToBytes(boardSummaryRaw.Title[7:]),
+		BoardClass:   boardClass,
+		BoardType:    boardType,
+		RealTitle:    realTitle,
 		BM:           bms,
 		Reason:       boardSummaryRaw.Reason,
 		LastPostTime: boardSummaryRaw.LastPostTime,
